@@ -37,6 +37,50 @@ ASSUMPTIONS = ['scipy.stats.uniform.ppf(x, loc, scale) = x*scale + loc on [0, 1]
                'samplers replaced by recording doubles: what the real samplers do with the callbacks is out of scope',
                'rounding: compared to 1e-9 relative + 1e-12*(sum |log terms| + chi^2)']
 
+# source tie (harness/translate.py, dialect 'obj' of harness/translate_obj.py -> lean/TaurexModel/Gen/SrcC06.lean, tied to
+# TaurexModel/Likelihood.lean in lean/Props/C06Src.lean)
+_OPT = 'taurex/optimizer/optimizer.py'
+_OBS = {'self._observed.spectrum': ('spectrum', 'list'), 'self._observed.errorBar': ('errorBar', 'list'),
+        'self._observed.wavenumberGrid': ('wavenumberGrid', 'list'), 'np.pi': ('pi', 's'), 'np.nan': ('np_nan', 's')}
+_FIT = {'self.fitting_parameters': ('fitting_parameters', 'objlist:Param'),
+        'self.fitting_priors': ('fitting_priors', 'objlist:Prior')}
+_METH = {'Prior.sample': ('sample', 1), 'Prior.prior': ('prior', 1)}
+_CHI = {'self.chisq_trans': ('chisq_trans', ['list', 'list', 'list'], 's')}
+SRC_SPECS = [
+    dict(module=_OPT, cls='Optimizer', func='chisq_trans', lean='chisq_trans', dialect='obj',
+         params=dict(fit_params='skip', data='skip', datastd='list'), attrs=_OBS,
+         bool_externals={'np.isnan': 'isnan'},
+         # update_model writes the parameters into the forward model (translated separately); its effect reaches this
+         # function only through the forward model's binned output, the external `final_model`
+         ignore_calls=r'^self\.(debug|info|warning|error|critical)\(|^self\.update_model\(fit_params\)$',
+         tuples={'self._binner.bin_model(self._model.model(wngrid=obs_bins))':
+                 [('u1', 'skip'), ('final_model', 'list'), ('u2', 'skip'), ('u3', 'skip')]}),
+    dict(module='taurex/optimizer/nestle.py', cls='NestleOptimizer', func='compute_fit', inner='nestle_loglike',
+         lean='nestle_loglike', dialect='obj', closure=['sqrtpi'], closure_params=['data', 'datastd'],
+         params=dict(params='list', data='list', datastd='list'), attrs=_OBS, list_externals=_CHI),
+    dict(module='taurex/optimizer/multinest.py', cls='MultiNestOptimizer', func='compute_fit', inner='multinest_loglike',
+         lean='multinest_loglike', dialect='obj', closure=['sqrtpi'],
+         params=dict(cube='list', ndim='skip', nparams='skip'), attrs=_OBS, list_externals=_CHI,
+         lens={'self.fitting_parameters': 'nfit'}),
+    dict(module='taurex/optimizer/polychord.py', cls='PolyChordOptimizer', func='compute_fit', inner='polychord_loglike',
+         lean='polychord_loglike', dialect='obj', closure=['sqrtpi'], closure_params=['data', 'datastd'],
+         params=dict(cube='list', data='list', datastd='list'), attrs=_OBS, list_externals=_CHI,
+         lens={'self.fitting_parameters': 'nfit'}, returns=['s', 'list']),
+    # the prior callbacks and update_model: loops over the parallel lists fitting_parameters / fitting_priors (abstract objects;
+    # `prior.sample`, `prior.prior` are function parameters, the tie supplies the model's)
+    dict(module='taurex/optimizer/nestle.py', cls='NestleOptimizer', func='compute_fit', inner='nestle_uniform_prior',
+         lean='nestle_uniform_prior', dialect='obj', params=dict(theta='list'), attrs=_FIT, methods=_METH, returns='list'),
+    dict(module='taurex/optimizer/multinest.py', cls='MultiNestOptimizer', func='compute_fit',
+         inner='multinest_uniform_prior', lean='multinest_uniform_prior', dialect='obj',
+         params=dict(cube='list', ndim='skip', nparams='skip'), attrs=_FIT, methods=_METH, out='cube'),
+    dict(module='taurex/optimizer/polychord.py', cls='PolyChordOptimizer', func='compute_fit',
+         inner='polychord_uniform_prior', lean='polychord_uniform_prior', dialect='obj', closure=['ndim'],
+         params=dict(hypercube='list'), attrs=_FIT, methods=_METH, returns='list'),
+    dict(module=_OPT, cls='Optimizer', func='update_model', lean='update_model', dialect='obj',
+         params=dict(fit_params='list'), attrs=_FIT, methods=_METH, returns='effects', effects_type='Param',
+         raises='option'),
+]
+
 SAMPLERS = ['nestle', 'multinest', 'polychord']
 TWO_PI_SQRT = math.sqrt(2 * math.pi)
 _FX = {}
@@ -589,6 +633,13 @@ def gen_poly_spec(rng, k):
     coefs = [float(rng.uniform(0.2, 1.5)) for _ in range(ncoef)]
     nobs = int(rng.integers(1, 13))
     otype = ['grid', 'array', 'array+offset'][int(rng.integers(0, 3))]
+    # fixed quota (every 7th case, all three samplers in turn): a long observation (90-260 bins) with very small or very
+    # large error bars - the regime where a product of the per-bin normalisations under/overflows although the sum of
+    # their logarithms is an ordinary number
+    big = (k % 7 == 6)
+    if big:
+        nobs = int(rng.integers(90, 260))
+        otype = 'grid'
     if otype == 'grid':
         wn = np.sort(rng.choice(np.arange(600.0, 4000.0, 13.0), size=nobs, replace=False))
         if rng.random() < 0.3:
@@ -607,6 +658,8 @@ def gen_poly_spec(rng, k):
         wn = 10000 / wl
     truth = sum(c * (np.asarray(wn) / 1000.0) ** j for j, c in enumerate(coefs))
     emag = 10 ** rng.uniform(-4, 0.5)
+    if big:
+        emag = 10 ** (rng.uniform(-7, -4) if rng.random() < 0.6 else rng.uniform(2, 4))
     err = emag * rng.uniform(0.3, 3.0, size=nobs)
     spectrum = truth + err * rng.normal(size=nobs)
     obs = dict(type=otype, wn=[float(x) for x in wn], wl=[float(x) for x in wl], spectrum=[float(x) for x in spectrum],
